@@ -283,6 +283,24 @@ func (t *T) Step(note func() string) {
 	t.c.curStart.Store(time.Now().UnixNano())
 }
 
+// Expired reports whether the tier deadline has passed; a long case polls it and returns early. The case then counts as not
+// completed: the evidence reports exhaustive=false and the index of the first case that was not run to its end.
+func (t *T) Expired() bool {
+	c := t.c
+	if c.deadline.IsZero() {
+		return false
+	}
+	if c.deadlineHit {
+		return true
+	}
+	if time.Now().After(c.deadline) {
+		c.deadlineHit = true
+		c.completed = c.curIdx.Load()
+		return true
+	}
+	return false
+}
+
 // Failed reports whether Fail was called for this case.
 func (t *T) Failed() bool { return t.failed }
 
